@@ -1,5 +1,5 @@
 #!/usr/bin/env python3
-"""confirm_seed.py <PROP> <N> [--skip-confirm]: confirm a seeded defect produced by an independent sub-agent
+"""confirm_seed.py <PROP> <N>: confirm a seeded defect produced by an independent sub-agent
 (/tmp/seed/<PROP>_out/<N>/) in a fresh scratch worktree — demo passes without the patch, patch applies and
 builds, demo fails with it, the touched packages' existing unit tests still pass — then run every registered
 bvcheck property on the patched tree and record which rules report. Keeps it as /verif/seeded/<PROP>-<N>/.
@@ -21,12 +21,14 @@ def sh(cmd, cwd=None, timeout=3600):
 
 def main():
     prop, n = sys.argv[1], sys.argv[2]
-    src = f'/tmp/seed/{prop}_out/{n}'
-    seed = f'{prop}-{n}'
+    # SEED_ROOT / SEED_TAG select another seeding round (e.g. SEED_ROOT=/tmp/seed2 SEED_TAG=r2- -> /verif/seeded/C04-r2-1)
+    root, tag = os.environ.get('SEED_ROOT', '/tmp/seed'), os.environ.get('SEED_TAG', '')
+    src = f'{root}/{prop}_out/{n}'
+    seed = f'{prop}-{tag}{n}'
     out = f'/verif/seeded/{seed}'
     wt = f'/tmp/cs_{seed}'
     readme = open(os.path.join(src, 'README.md')).read() if os.path.exists(os.path.join(src, 'README.md')) else ''
-    meta = {'seed': seed, 'property': prop, 'source': 'independent sub-agent given only the property record and a scratch worktree', 'ran': []}
+    meta = {'seed': seed, 'property': prop, 'round': 2 if tag else 1, 'source': 'independent sub-agent given only the property record and a scratch worktree', 'ran': []}
     sh(f'git -C /repo worktree remove --force {wt}; rm -rf {wt}')
     rc, o, _ = sh(f'/verif/tools/mkwt.sh {wt}')
     if rc != 0:
